@@ -16,9 +16,9 @@ EXPLANATION = (
     "_filter_objects / get_scene_result and PerceptionFrameResult.__init__ / evaluate_frame nothing reachable from the caller's estimate "
     "list, from the FrameGroundTruth it was given (in particular its .objects) or from self.ground_truth_frames (the loaded dataset) may "
     "be mutated; filtered lists are stored onto a shallow copy of the frame; the in-place sort of Ap only ever reaches lists freshly built "
-    "by divide_objects; (2) history flows only into tracking – add_frame_result reads self.frame_results only as len(...) and [-1] and "
+    "by divide_objects; get_scene_result (a query) mutates nothing reachable from self - in particular it does not re-order the history through an alias; (2) history flows only into tracking – add_frame_result reads self.frame_results only as len(...) and [-1] and "
     "hands that value only to evaluate_frame(previous_result=...); evaluate_frame touches previous_result only under `tracking_config is "
-    "not None`; (3) pooling – get_scene_result walks self.frame_results in order and per target label appends "
+    "not None`; the new frame result is appended to the history only after evaluate_frame has returned (an exception leaves no half-evaluated frame behind); (3) pooling – get_scene_result walks self.frame_results in order and per target label appends "
     "divide_objects(frame.object_results)[label] and adds divide_objects_to_num(frame.frame_ground_truth.objects)[label] (the same two "
     "dividers as the per-frame path), then scores the pooled dicts with a fresh MetricsScore; MetricsScore accumulates ground-truth "
     "counts with += only; (4) the pooled per-frame lists handed to Ap are flattened and ranked exactly once as a whole by confidence (rule shared with C04) - a per-frame "
